@@ -1967,6 +1967,8 @@ pub struct ProjectShape {
     pub max_defs: usize,
     pub with_main: bool,
     pub pragma_always: bool,
+    /// appended to every definition name (two packages in one project must not clash)
+    pub name_suffix: String,
 }
 
 pub fn gen_project(rng: &mut Rng, k: &Knobs, shape: &ProjectShape) -> Project {
@@ -1989,7 +1991,9 @@ pub fn gen_project(rng: &mut Rng, k: &Knobs, shape: &ProjectShape) -> Project {
             if cands.is_empty() {
                 continue;
             }
-            let name = rng.pick(&cands).to_string();
+            let base_name = rng.pick(&cands).to_string();
+            let name = format!("{base_name}{}", shape.name_suffix);
+            used_names.push(base_name);
             let d = gen_function(rng, k, &reg, &name);
             reg.functions.push((name.clone(), d.params.len()));
             used_names.push(name);
@@ -2003,7 +2007,9 @@ pub fn gen_project(rng: &mut Rng, k: &Knobs, shape: &ProjectShape) -> Project {
             if cands.is_empty() {
                 continue;
             }
-            let name = rng.pick(&cands).to_string();
+            let base_name = rng.pick(&cands).to_string();
+            let name = format!("{base_name}{}", shape.name_suffix);
+            used_names.push(base_name);
             let d = gen_template(rng, k, &reg, &name);
             reg.templates.push(d.clone());
             used_names.push(name);
